@@ -138,8 +138,12 @@ impl<T: Read + Seek> ClassRead for T {
         Ok(buf)
     }
     fn read_u8_vec(&mut self, size: usize) -> Result<Vec<u8>> {
-        let mut vec = std::vec::from_elem(0, size);
-        self.read_exact(&mut vec)?;
+        // don't trust `size` for the allocation, it usually comes straight from a length field of the input
+        let mut vec = Vec::new();
+        let read = Read::by_ref(self).take(size as u64).read_to_end(&mut vec)?;
+        if read != size {
+            return Err(std::io::Error::from(std::io::ErrorKind::UnexpectedEof).into());
+        }
         Ok(vec)
     }
 }
